@@ -261,6 +261,24 @@ Fixpoint run_obs (runnable : file -> bool) (watch : list loc) (cmds : list cmd) 
       (exit_code runnable c w, observe watch w', map event_code (wlog w')) :: run_obs runnable watch t w'
   end.
 
+(* the same with every file printed as its index in a pool of known files (the commands only copy
+   and delete, so every file ever present is one of the initial ones); keeps the printed terms small *)
+Definition file_eqb (a b : file) : bool := (fst a =? fst b) && beq (snd a) (snd b).
+Fixpoint file_index (pool : list file) (f : file) (i : N) : N :=
+  match pool with
+  | [] => 999999
+  | g :: t => if file_eqb f g then i else file_index t f (i + 1)
+  end.
+Definition observe_ix (pool : list file) (watch : list loc) (w : world) : list (option N) * bool * bool :=
+  (map (fun l => option_map (fun f => file_index pool f 0) (fs_get l (wfs w))) watch, wrunning w, wenabled w).
+Fixpoint run_obs_ix (runnable : file -> bool) (pool : list file) (watch : list loc) (cmds : list cmd) (w : world)
+  : list (N * (list (option N) * bool * bool) * list (N * N)) :=
+  match cmds with
+  | [] => []
+  | c :: t =>
+      let w' := exec runnable c (clear_log w) in
+      (exit_code runnable c w, observe_ix pool watch w', map event_code (wlog w')) :: run_obs_ix runnable pool watch t w'
+  end.
 Definition mk_world (files : list (loc * file)) (running enabled : bool) : world :=
   {| wfs := fold_left (fun m kv => fs_set (fst kv) (snd kv) m) files [];
      wrunning := running; wenabled := enabled; wlog := []; wtool := [] |}.
@@ -271,3 +289,7 @@ Definition standin_magic : bytes :=
   [35; 33; 47; 98; 105; 110; 47; 115; 104; 10; 101; 99; 104; 111; 32].   (* "#!/bin/sh\necho " *)
 Definition standin_runnable (f : file) : bool :=
   negb (N.land (fmode f) 73 =? 0) && starts_with (fdata f) standin_magic.   (* 73 = 0o111 *)
+
+Definition run_scenario (files : list (loc * file)) (extra_watch : list loc) (running enabled : bool) (cmds : list cmd) :=
+  run_obs_ix standin_runnable (map snd files) (fixed_locs ++ extra_watch) cmds (mk_world files running enabled).
+
